@@ -80,6 +80,7 @@ func c17Opts(t *rapid.T) Opts {
 	if rapid.Bool().Draw(t, "sw") {
 		o.Switches = map[string]string{"V": "A", "W": "B"}
 	}
+	o.Lint = rapid.IntRange(0, 5).Draw(t, "lint") == 0
 	return o
 }
 
@@ -362,7 +363,7 @@ func init() {
 	register("C17", "TestC17_Context", checkC17Context, c17ContextSrc)
 }
 
-const c17Rule = "(1) repeatability: whole files (valid, and made invalid by deleting / replacing a token or truncating) under drawn option sets (optimize, line markers, switches, CLI line length, several font configs, unknown font ids whose error lists the font table) are compiled 5 times in one process: byte-identical outputs / errors; (2) history independence: a history of 2-12 compilations drawn from a pool of 2-5 (program, options) pairs is run in one process and every result must equal the result of the same compilation run FIRST in a fresh process (the test binary re-executes itself); (3) context independence: every top-level statement of a file is also compiled alone (with the constants before it); its code, with hoisted labels renamed by content, must occur as one contiguous run in the output of the whole file and every hoisted block it defines must exist there with the same content. non-trivial = (1) >= 3 labelled blocks or an error, (2) >= 2 option sets and a failing compilation in the history, (3) >= 3 statements with hoisted data; distinct by input"
+const c17Rule = "(1) repeatability: whole files (valid, and made invalid by deleting / replacing a token or truncating) under drawn option sets (optimize, line markers, switches, CLI line length, several font configs, unknown font ids whose error lists the font table, lint mode) are compiled 5 times in one process: byte-identical outputs / errors; (2) history independence: a history of 2-12 compilations drawn from a pool of 2-5 (program, options) pairs is run in one process and every result must equal the result of the same compilation run FIRST in a fresh process (the test binary re-executes itself); (3) context independence: every top-level statement of a file is also compiled alone (with the constants before it); its code, with hoisted labels renamed by content, must occur as one contiguous run in the output of the whole file and every hoisted block it defines must exist there with the same content. non-trivial = (1) >= 3 labelled blocks or an error, (2) >= 2 option sets and a failing compilation in the history, (3) >= 3 statements with hoisted data; distinct by input"
 
 func TestC17_Regress(t *testing.T) { runRegress(t, "C17") }
 
